@@ -198,6 +198,44 @@ fn check(case: &Case) -> Verdict {
     }
 }
 
+/// ultra-long runs (past 2^16 and 2^17 updates): every wrapper over Sma(4) and over Roc(3); ints = [0, seed, len, shape]
+fn ultra_cases(tier: Tier) -> Vec<Case> {
+    let len = tier.pick(135_000usize, 1_100_000usize);
+    let mut out = vec![];
+    for (ii, inner) in [Spec::Sma(echo(), 4), Spec::Roc(echo(), 3)].into_iter().enumerate() {
+        for (w, o) in outers(&inner, 5).into_iter().enumerate() {
+            out.push(Case { spec: Some(o), ints: vec![0, (0xC01_0000 + 613 * w + ii) as i64, len as i64, ((w + ii) % 4) as i64], a: Rat(1, 1), ..Default::default() });
+        }
+    }
+    out
+}
+fn ultra_check(case: &Case) -> Verdict {
+    let spec = case.spec();
+    let (seed, len, shape) = (case.ints[1] as u64, case.ints[2] as usize, case.ints[3]);
+    // positive inputs throughout: every tree of this clause is then inside its documented domain or discarded
+    if !spec.domain_ok_positive_input() {
+        return Verdict::Discard("tree outside the documented input domain".into());
+    }
+    let xs: Vec<f64> = gen::ultra_stream(seed, len, shape).into_iter().map(|k| k.abs().max(1) as f64 / 8.0).collect();
+    let r = guarded(|| {
+        let dl = delivery::<f64>(spec, &xs)?;
+        presence::<f64>(spec, &xs)?;
+        let oc = decompose::<f64>(spec, &xs)?;
+        Ok::<_, String>((dl, oc))
+    });
+    let outer = spec.name();
+    let ctx = format!("(stream: |ultra_stream(seed {seed}, len {len}, shape {shape})| max 1, grid 1/8)");
+    match r {
+        Err(p) if p.contains("Can compare elements") => Verdict::Discard("a NaN reached Min/Max (left the domain)".into()),
+        Err(p) => Verdict::fail(format!("C01/{outer}/f64|panic"), format!("{}: {p} {ctx}", spec.show())),
+        Ok(Err(m)) => {
+            let kind = if m.contains("leaf #") { "delivery" } else if m.contains("combining node") { "presence" } else { "decomposition" };
+            Verdict::fail(format!("C01/{outer}/f64|{kind}"), format!("{}: {m} {ctx}", spec.show()))
+        }
+        Ok(Ok((_, oc))) => Verdict::pass(oc.distinct_outputs >= 2, vec![format!("shape_{shape}")]),
+    }
+}
+
 fn enumerate(tier: Tier) -> Vec<Case> {
     let mut out = vec![];
     let streams_per_pair = tier.pick(3, 24);
@@ -260,6 +298,7 @@ fn generated(depth3: bool) -> impl Fn(Tier) -> BoxedStrategy<Case> + Send + Sync
 pub fn clauses() -> Vec<Clause> {
     vec![
         Clause::enumerated("C01", "C01/pairs/enumerated", "Enumerated: every unary wrapper (34) over every inner view (Echo, Constant, 34 unary views over Echo, 8 binary combinators) at window pairs {1,3,7} x {1,4,9}, 3 streams each (thorough 24), f64 and f32 alternating. Oracles: decomposition (bit-identical to stand-alone inner -> wrapper over Echo, fed only when the inner has an output), delivery (every Probe leaf logs each raw input exactly once, in order), presence (a combining node has a value iff both children do). Non-trivial: inner != Echo, stream longer than the windows, chain produced >= 2 distinct outputs.", enumerate, check).with_shard(1500),
+        Clause::enumerated("C01", "C01/ultra/enumerated", "Enumerated: every unary wrapper at window 5 over Sma(4) and over Roc(3), 135 000 positive values (thorough 1.1e6; past 2^16 and 2^17 updates) on the 1/8 grid, four stream shapes, f64. Same three oracles at every step.", ultra_cases, ultra_check).with_shard(8),
         Clause::generated("C01", "C01/chains/generated", "Generated two-level trees (unary over unary, unary over binary, binary over unaries) with random windows and secondary parameters, grammar streams, scalars f64 / f32 / Q. Same three oracles. Non-trivial as above.", 8000, 300_000, generated(false), check).with_shard(500),
         Clause::generated("C01", "C01/triples/generated", "Generated three-level trees B(C(A)) / B(op(A1, A2)); the decomposition is taken at the outermost wrapper boundary. Same oracles.", 4000, 150_000, generated(true), check).with_shard(500),
     ]
